@@ -290,6 +290,9 @@ class IoSim(Engine):
                 check(kind, out, ch, 'multi')
                 stats.count('short_reads', out['io'].short_reads)
             for k in interesting_offsets(items, binary, cap):
+                if self.out_of_time():
+                    stats.count('cases_with_enumeration_cut_by_deadline')
+                    break
                 out = load_kind(kind, chunks=[k, len(items)])
                 check(kind, out, [k, len(items)], boundary_class(items, k, binary))
                 stats.count('short_reads', out['io'].short_reads)
@@ -306,6 +309,9 @@ class IoSim(Engine):
             items = data if binary else text_items
             offs = [0] + interesting_offsets(items, binary, max(4, cap // 2)) + [len(items)]
             for k in offs:
+                if self.out_of_time():
+                    stats.count('cases_with_enumeration_cut_by_deadline')
+                    break
                 if kind in ('duck_text', 'duck_binary'):
                     fault = {'op': 'read', 'at': k, 'errno': 'EIO'}
                 else:
@@ -389,6 +395,10 @@ class IoSim(Engine):
             options = [options[(start + int(i * step)) % len(options)] for i in range(nopt)]
         fcap = max(3, min(self.cost // 8, self.call_budget // (rc * 60)))
         for opt in options:
+            if self.out_of_time():
+                stats.count('cases_with_enumeration_cut_by_deadline')
+                break
+
             def dumps():
                 return fs(obj, **opt)
             ref, _ = ops.call(dumps)
@@ -598,6 +608,7 @@ class IoSim(Engine):
             'documents_over_4096_bytes': c.get('docs_over_4096_bytes', 0),
             'cases_with_cost_capped_enumeration': c.get('cases_with_cost_capped_enumeration', 0),
             'cases_skipped_too_costly': c.get('cases_skipped_too_costly', 0),
+            'cases_with_enumeration_cut_by_deadline': c.get('cases_with_enumeration_cut_by_deadline', 0),
             'probes': probes,
             'simulated_time': 'not applicable: yatiml reads no clock; logical steps are raw I/O calls',
             'real_vs_stub': dict(REAL_STUB, **{
